@@ -20,7 +20,7 @@ from ..common import Report, stream, digest, order_to_decisions, big
 from ..isolation import pristine_state
 from ..engine import Engine, Monitor, Scripted
 from ..ops import canon_vd
-from ..terms import World, TYPES, snap, diff_path, attr_locus
+from ..terms import World, TYPES, snap, diff_path, attr_locus, BuildError
 
 PID = "C18"
 
@@ -62,10 +62,7 @@ def generate(seed):
             else:
                 parts.append(g.concrete_part(k))
             cur = cur[k]
-        if c < 0.25 and len(parts) == 1 and parts[0][0] == "prim" and isinstance(parts[0][1], str):
-            roots.append(("str", parts[0][1]))
-        else:
-            roots.append(("path", tuple(parts), None, None))
+        roots.append(("path", tuple(parts), None, None))  # always a DataPath, as the signature says
     # rules of T-like schemas are written relative to what lies at a root
     sub_docs = []
     for rt in roots:
@@ -265,7 +262,12 @@ class Model:
 def build_root(world, rt):
     if rt[0] == "str":
         return rt[1]
-    return world.path(rt)
+    try:
+        return world.path(rt)
+    except BuildError:
+        raise
+    except Exception as e:  # the world cannot be built: discarded, not a verdict of this check
+        raise BuildError("root", e)
 
 
 def exec_op(world, op):
@@ -516,14 +518,11 @@ def run(case):
     world.roots = [build_root(world, rt) for rt in term["roots"]]
     for i in range(len(term["schemas"])):
         world.get("schemas", i)
+    # Nothing is registered with the digest monitor: "T itself is unchanged" is
+    # decided by comparing every schema with the reference model after every
+    # step; whether validate() leaves documents, rules and paths alone is C08's
+    # statement, not C18's.
     mon = Monitor()
-    for i in range(len(term["docs"])):
-        mon.register(f"docs[{i}]", world.get("docs", i))
-    for i in range(len(term["rules"])):
-        if world.has("rules", i):
-            mon.register(f"rules[{i}]", world.get("rules", i))
-    for i, r in enumerate(world.roots):
-        mon.register(f"roots[{i}]", r)
     world.state = {"model": Model(term), "adds": 0, "semantic_checked": 0, "structural_checked": 0, "behavioural_checked": 0, "tie_order_differs_from_model": 0, "behaviour_skipped_tie_order_and_casts": 0}
     eng = Engine(world, case["programs"], exec_op, mon, Scripted(case["decisions"]), mode="op", on_boundary=on_boundary)
     eng.run()
